@@ -599,8 +599,70 @@ def search_direction(ctx):
                             f.qual, which, direction, exp, "most recently opened" if exp == "reverse" else "topmost"),
                         {"function": f.qual, "direction": direction}, detail={"function": f.qual, "direction": direction})
     missing = set(SEARCH_DIRECTION) - seen
+    # the Noah's Ark search is also decided by running addFormattingElement (C01.25): when it is written without a loop, that
+    # evaluation is the verdict
+    if ctx.shared("noahs_ark_evaluated", lambda: noahs_ark(ctx)):
+        missing.discard(("InBodyPhase.addFormattingElement", "activeFormattingElements"))
     if missing:
         raise AnalysisError("stack searches vanished: %s" % sorted(missing))
+
+
+def noahs_ark(ctx) -> bool:
+    """C01.25: "push onto the list of active formatting elements": if, *after the last marker*, there are already three
+    elements with the same name, namespace and attributes, the earliest of them is removed; then the element is appended.
+    InBodyPhase.addFormattingElement is run from its source (sa/classeval.py) on models of the tree builder's two lists."""
+    from ..classeval import ClassEval, Record
+    r = ctx.r
+    r.rule("C01.25", "Noah's Ark clause: the earliest of three matching entries after the last marker is dropped", floor=6)
+    cls = ctx.repo.cls(PARSER_REL, "InBodyPhase")
+    f = cls.find_method("addFormattingElement")
+    if f is None:
+        r.idiom("C01.25", False, "noahs-ark", PARSER_REL, "InBodyPhase.addFormattingElement not found")
+        return False
+    mod = ctx.repo.module(PARSER_REL)
+    marker = ctx.ce.const("treebuilders/base.py", "Marker")
+    HTML = "http://www.w3.org/1999/xhtml"
+
+    def el(tag, name="b", ns=HTML, attrs=None):
+        return Record(tag=tag, name=name, namespace=ns, nameTuple=(ns, name), attributes=dict(attrs or {}))
+    b1, b2, b3, b4, bx, i1 = el("b1"), el("b2"), el("b3"), el("b4"), el("bx", attrs={"class": "x"}), el("i1", name="i")
+    bs = el("bs", ns="http://www.w3.org/2000/svg")
+    M = marker
+    scenarios = [
+        ("three-matching", [b1, b2, b3], ["b2", "b3", "NEW"]),
+        ("three-before-a-marker", [b1, b2, b3, M], ["b1", "b2", "b3", "M", "NEW"]),
+        ("two-after-a-marker", [b1, M, b2, b3], ["b1", "M", "b2", "b3", "NEW"]),
+        ("three-after-a-marker", [b1, M, b2, b3, b4], ["b1", "M", "b3", "b4", "NEW"]),
+        ("different-attributes", [b1, bx, b2], ["b1", "bx", "b2", "NEW"]),
+        ("other-elements-between", [i1, b1, bx, b2, b3], ["i1", "bx", "b2", "b3", "NEW"]),
+        ("different-namespace", [b1, bs, b2], ["b1", "bs", "b2", "NEW"]),
+        ("empty-list", [], ["NEW"]),
+    ]
+    all_run = True
+    for label, afe, want in scenarios:
+        afe = list(afe)
+        stack = [el("html", name="html"), el("body", name="body")]
+        new = []
+
+        def insert(tok, stack=stack, new=new):
+            e = el("NEW", name=tok["name"], ns=tok.get("namespace", HTML), attrs=tok.get("data", {}))
+            new.append(e)
+            stack.append(e)
+        tree = Record(openElements=stack, activeFormattingElements=afe, insertElement=insert)
+        key = "noahs-ark::%s" % label
+        try:
+            ClassEval(ctx.ce, mod, cls, {"tree": tree, "parser": Record()}, repo=ctx.repo).call("addFormattingElement", [{"type": 3, "name": "b", "namespace": HTML, "data": {}}])
+        except AnalysisError as e:
+            r.idiom("C01.25", False, key, f.where, "addFormattingElement is not evaluable (%s)" % str(e)[:90])
+            all_run = False
+            continue
+        got = ["M" if x is M else x.tag for x in afe]
+        r.check("C01.25", got == want, key, f.where,
+                "pushing a <b> onto the list of active formatting elements %s leaves %s; the standard leaves %s (only entries after the last "
+                "marker count, and the earliest of three matching ones goes)" % (
+                    ["M" if x is M else x for x in [("M" if y is M else y.tag) for y in scenarios[[s_[0] for s_ in scenarios].index(label)][1]]], got, want),
+                {"scenario": label}, detail={"scenario": label, "result": got})
+    return all_run
 
 
 # ---------------------------------------------------------------------------- C01.9 tree construction dispatcher
@@ -614,15 +676,21 @@ def dispatcher(ctx):
     env0 = ce.local_env(f.node, f.module)
     tt = ce.const("constants.py", "tokenTypes")
     ns_map = ce.const("constants.py", "namespaces")
-    conds = [n for n in ast.walk(f.node) if isinstance(n, ast.If) and "isMathMLTextIntegrationPoint" in norm(n.test)]
+    # the condition is found by what its arms do: one selects the current insertion mode, the other the foreign-content rules
+    conds = [n for n in ast.walk(f.node) if isinstance(n, ast.If) and n.orelse and
+             {tuple(norm(x) for x in n.body), tuple(norm(x) for x in n.orelse)} == {("phase = self.phase",), ("phase = self.phases['inForeignContent']",)}]
+    if len(conds) != 1:
+        conds = [n for n in ast.walk(f.node) if isinstance(n, ast.If) and "isMathMLTextIntegrationPoint" in norm(n.test)]
     if len(conds) != 1:
         raise AnalysisError("mainLoop: dispatcher condition not found")
     cond = conds[0]
+    if [norm(x) for x in cond.body] != ["phase = self.phase"] and [norm(x) for x in cond.orelse] == ["phase = self.phase"]:
+        # written the other way round: decide the negation
+        cond = ast.If(test=ast.UnaryOp(op=ast.Not(), operand=cond.test), body=cond.orelse, orelse=cond.body, lineno=cond.lineno)
     then_ok = [norm(x) for x in cond.body] == ["phase = self.phase"]
     else_ok = [norm(x) for x in cond.orelse] == ["phase = self.phases['inForeignContent']"]
     r.check("C01.9", then_ok and else_ok, "dispatcher-arms", "%s:%d" % (PARSER_REL, cond.lineno),
             "the dispatcher's arms no longer select the current insertion mode / the foreign-content rules")
-    interp = MiniInterp(ce, f.module)
     kinds = ["Characters", "SpaceCharacters", "StartTag", "EndTag", "Comment", "Doctype"]
     for empty in (True, False):
         for ns in ("html", "mathml", "svg"):
@@ -651,20 +719,22 @@ def dispatcher(ctx):
                                         return None if empty else ns_map[ns]
                                     if t == "currentNodeName":
                                         return None if empty else ("annotation-xml" if annot else "x")
-                                    if t == "self.isMathMLTextIntegrationPoint(currentNode)":
+                                    # the predicates, asked about the current node under whatever name (a helper's parameter)
+                                    if isinstance(node, ast.Call) and norm(node.func) == "self.isMathMLTextIntegrationPoint" and len(node.args) == 1:
                                         return mtip
-                                    if t == "self.isHTMLIntegrationPoint(currentNode)":
+                                    if isinstance(node, ast.Call) and norm(node.func) == "self.isHTMLIntegrationPoint" and len(node.args) == 1:
                                         return hip
+                                    if isinstance(node, ast.Attribute) and node.attr in ("name", "namespace") and isinstance(node.value, ast.Name) and \
+                                            isinstance((local or {}).get(node.value.id), Opaque) and local[node.value.id].text == "currentNode":
+                                        if node.attr == "name":
+                                            return None if empty else ("annotation-xml" if annot else "x")
+                                        return None if empty else ns_map[ns]
                                     return NotImplemented
                                 env = dict(env0)
                                 tok = {"type": tt[kind], "name": name}
-                                env.update({"type": tt[kind], "token": tok, "new_token": tok})
-                                saved = ce.hook
-                                ce.hook = hook
-                                try:
-                                    got = interp.eval_guard(cond.test, env)
-                                finally:
-                                    ce.hook = saved
+                                env.update({"type": tt[kind], "token": tok, "new_token": tok, "currentNode": Opaque("currentNode"), "self": Opaque("self")})
+                                interp = MiniInterp(ce, f.module, expr_hook=hook)
+                                got = interp.eval_guard(cond.test, env)
                                 exp = (empty or ns == "html"
                                        or (mtip and ((kind == "StartTag" and name not in ("mglyph", "malignmark")) or kind in ("Characters", "SpaceCharacters")))
                                        or (annot and kind == "StartTag" and name == "svg")
@@ -832,43 +902,61 @@ def formatting_rules(ctx):
         raise AnalysisError("InForeignContentPhase.processStartTag: breakout pop loop not found")
     loop = loops[0]
     ns_map = ce.const("constants.py", "namespaces")
-    interp = MiniInterp(ce, f.module)
-    for ns in ("html", "mathml", "svg"):
-        for hip in (False, True):
-            for mtip in (False, True):
-                if ns == "html" and (hip or mtip) or (mtip and ns != "mathml") or (hip and mtip):
-                    continue
+    # concrete current nodes (namespace, name, attributes): the breakout stops at an HTML element, at a MathML text integration
+    # point and at an HTML integration point -- annotation-xml is one only with encoding text/html or application/xhtml+xml
+    reps = [("html", "div", {}), ("svg", "g", {}), ("svg", "foreignObject", {}), ("svg", "desc", {}), ("svg", "title", {}), ("svg", "svg", {}),
+            ("mathml", "math", {}), ("mathml", "mi", {}), ("mathml", "mo", {}), ("mathml", "mn", {}), ("mathml", "ms", {}), ("mathml", "mtext", {}),
+            ("mathml", "mrow", {}), ("mathml", "annotation-xml", {}), ("mathml", "annotation-xml", {"encoding": "text/html"}),
+            ("mathml", "annotation-xml", {"encoding": "APPLICATION/XHTML+XML"}), ("mathml", "annotation-xml", {"encoding": "text/plain"})]
+    for ns, name, attrs in reps:
+        hip = (ns == "svg" and name in ("foreignObject", "desc", "title")) or (
+            ns == "mathml" and name == "annotation-xml" and attrs.get("encoding", "").lower() in ("text/html", "application/xhtml+xml"))
+        mtip = ns == "mathml" and name in ("mi", "mo", "mn", "ms", "mtext")
 
-                def hook(node, local, ns=ns, hip=hip, mtip=mtip):
-                    t = norm(node)
-                    if t == "self.tree.openElements[-1].namespace":
-                        return ns_map[ns]
-                    if t == "self.tree.defaultNamespace":
-                        return ns_map["html"]
-                    if t == "self.parser.isHTMLIntegrationPoint(self.tree.openElements[-1])":
-                        return hip
-                    if t == "self.parser.isMathMLTextIntegrationPoint(self.tree.openElements[-1])":
-                        return mtip
-                    return NotImplemented
-                saved = ce.hook
-                ce.hook = hook
-                try:
-                    try:
-                        got = interp.eval_guard(loop.test, {"self": Opaque("self")})
-                    except Exception as e:       # noqa: BLE001 -- unrecognised guard shape
-                        got = None
-                finally:
-                    ce.hook = saved
-                exp = not (ns == "html" or hip or mtip)
-                key = "breakout[ns=%s hip=%d mtip=%d]" % (ns, hip, mtip)
-                if got is None:
-                    r.idiom("C01.13", False, key, "%s:%d" % (PARSER_REL, loop.lineno), "breakout loop guard not evaluable")
-                    continue
-                r.check("C01.13", bool(got) == exp, key, "%s:%d" % (PARSER_REL, loop.lineno),
-                        "foreign-content breakout: with the current node in the %s namespace (HTML integration point=%s, MathML text "
-                        "integration point=%s) the loop %s popping; the standard %s" % (
-                            ns, hip, mtip, "keeps" if got else "stops", "keeps popping" if exp else "stops there"),
-                        {"case": key}, detail={"case": key, "pops": bool(got)})
+        def hook(node, local, ns=ns, name=name, attrs=attrs, hip=hip, mtip=mtip):
+            t = norm(node)
+            if t == "self.tree.openElements[-1].namespace":
+                return ns_map[ns]
+            if t == "self.tree.openElements[-1].name":
+                return name
+            if t == "self.tree.openElements[-1].nameTuple":
+                return (ns_map[ns], name)
+            if t == "self.tree.openElements[-1].attributes":
+                return attrs
+            if t == "self.tree.defaultNamespace":
+                return ns_map["html"]
+            # the two predicates are the standard's (C01.9 decides that the methods implement them)
+            if isinstance(node, ast.Call) and norm(node.func) in ("self.parser.isHTMLIntegrationPoint", "self.isHTMLIntegrationPoint") and \
+                    [norm(a) for a in node.args] == ["self.tree.openElements[-1]"]:
+                return hip
+            if isinstance(node, ast.Call) and norm(node.func) in ("self.parser.isMathMLTextIntegrationPoint", "self.isMathMLTextIntegrationPoint") and \
+                    [norm(a) for a in node.args] == ["self.tree.openElements[-1]"]:
+                return mtip
+            # a class-level table of the phase
+            if isinstance(node, ast.Attribute) and norm(node.value) == "self" and isinstance(node.ctx, ast.Load) and f.cls is not None:
+                c_, v_ = f.cls.find_assign(node.attr)
+                if v_ is not None:
+                    return ce.eval(v_, f.module, None)
+            return NotImplemented
+        interp = MiniInterp(ce, f.module, expr_hook=hook)
+        try:
+            got = interp.eval_guard(loop.test, {"self": Opaque("self")})
+        except Exception:       # noqa: BLE001 -- unrecognised guard shape
+            got = None
+        exp = not (ns == "html" or hip or mtip)
+        key = "breakout[%s %s%s]" % (ns, name, " encoding=%s" % attrs["encoding"] if attrs else "")
+        if got is None:
+            r.idiom("C01.13", False, key, "%s:%d" % (PARSER_REL, loop.lineno), "breakout loop guard not evaluable")
+            continue
+        r.check("C01.13", bool(got) == exp, key, "%s:%d" % (PARSER_REL, loop.lineno),
+                "foreign-content breakout: with the current node <%s %s%s> (HTML integration point=%s, MathML text integration point=%s) the "
+                "loop %s popping; the standard %s%s" % (
+                    ns, name, " encoding=%s" % attrs["encoding"] if attrs else "", hip, mtip, "keeps" if got else "stops",
+                    "keeps popping" if exp else "stops there",
+                    "" if exp or got is False else " (an annotation-xml without a text/html encoding is not an integration point)"
+                    if False else (": the start tag is then handed back to the foreign-content rules with the same current node -- the "
+                                   "main loop never ends (`<math><annotation-xml><p>`)" if exp and not got else "")),
+                {"case": key}, detail={"case": key, "pops": bool(got)})
 
 
 # ---------------------------------------------------------------------------- C01.14 foster parenting applies to table-ish targets only
